@@ -29,7 +29,7 @@ for pid in ALL:
 
 manifest = dict(
     version=1,
-    setup_cmd="/venv/bin/python harness/gen_tables.py && /venv/bin/python harness/gen_translate.py && cd lean && lake build",
+    setup_cmd="/venv/bin/python harness/gen_tables.py && /venv/bin/python harness/gen_translate.py && /venv/bin/python harness/gen_translate_flows.py && cd lean && lake build",
     hooks=dict(
         guard="PYJELLY_VERIF",
         enable="no source hooks are needed or installed: every observation is made in-process from the harness "
@@ -41,7 +41,7 @@ manifest = dict(
     ),
     engines=[dict(name="lean4-model+correspondence", path="lean/ + harness/", serves_properties=sorted(p for p in REGISTRY if REGISTRY[p].get('claimed', True)),
                   kind_free_text="Lean 4 executable model with machine-checked theorems; finite tables regenerated from the live "
-                                 "code and proved equal by decide; the lookup classes translated from the Python sources to Lean on every "
+                                 "code and proved equal by decide; the lookup classes and the frame-flow classes translated from the Python sources to Lean on every "
                                  "run and proved equal to the model; compiled model driver diffed byte-for-byte against the real "
                                  "pyjelly on generated inputs; property oracles on the real code")],
     checks=checks,
